@@ -18,3 +18,21 @@ Definition model_run (prog : list rop) (sched : list tid) : string :=
 
 Definition model_verdict (prog : list rop) (sched : list tid) : string :=
   spec_verdict (trace (exec current_shapes (init prog) sched)).
+
+(* correspondence, compared inside Coq: "ok", or the position of the first difference with
+   the model's and the real event there *)
+Definition act_eqb (a b : act) : bool := String.eqb (show_act a) (show_act b).
+Definition event_eqb (x y : event) : bool :=
+  String.eqb (show_tid (fst x)) (show_tid (fst y)) && act_eqb (snd x) (snd y).
+
+Fixpoint first_diff (i : nat) (m r : list event) : string :=
+  match m, r with
+  | [], [] => "ok"
+  | x :: m', y :: r' => if event_eqb x y then first_diff (S i) m' r'
+                        else "diff@" +++ show_nat i +++ " model=" +++ show_event x +++ " real=" +++ show_event y
+  | x :: _, [] => "diff@" +++ show_nat i +++ " model=" +++ show_event x +++ " real=end"
+  | [], y :: _ => "diff@" +++ show_nat i +++ " model=end real=" +++ show_event y
+  end.
+
+Definition model_agrees (prog : list rop) (sched : list tid) (real : list event) : string :=
+  first_diff 0 (trace (exec current_shapes (init prog) sched)) real.
